@@ -119,3 +119,57 @@ SORTS = {
     "CAST": ("bv", ["int", "bool", "bv"], None),
     "ITE": ("same", ["bool", "any", "any"], "eqarms"),
 }
+
+
+# ---------------------------------------------------------------------------------------------------------------------
+# C11 integer evaluation of constant expressions (oracle for the compile-time folders, written from the standard:
+# 6.3.1.1 promotions, 6.3.1.3 conversions, 6.3.1.8 usual arithmetic conversions, 6.5.5/6.5.6/6.5.8/6.5.9)
+def c_promote(t):
+    """t = (signed, width) -> promoted type."""
+    s, w = t
+    return (True, 32) if w < 32 else (s, w)
+
+
+def c_common(ta, tb):
+    ta, tb = c_promote(ta), c_promote(tb)
+    if ta == tb:
+        return ta
+    (sa, wa), (sb, wb) = ta, tb
+    if sa == sb:
+        return (sa, max(wa, wb))
+    (su, wu), (ss, ws) = (ta, tb) if not sa else (tb, ta)  # unsigned one, signed one
+    if wu >= ws:
+        return (False, wu)
+    return (True, ws)  # the signed type can represent all values of the narrower unsigned type
+
+
+def c_convert(v, t):
+    s, w = t
+    v &= (1 << w) - 1
+    if s and v >> (w - 1):
+        v -= 1 << w
+    return v
+
+
+def c_fold(op, a, ta, b, tb):
+    """-> ('value', v, type) | ('bool', truth) | ('reject',) for `a op b` on integer constants a:ta, b:tb."""
+    t = c_common(ta, tb)
+    x, y = c_convert(a, t), c_convert(b, t)
+    if op in ("<", ">", "<=", ">=", "==", "!="):
+        return ("bool", {"<": x < y, ">": x > y, "<=": x <= y, ">=": x >= y, "==": x == y, "!=": x != y}[op])
+    if op == "/":
+        if y == 0 or x % y != 0:
+            return ("reject",)
+        return ("value", c_convert(x // y, t), t)
+    v = {"+": x + y, "-": x - y, "*": x * y}[op]
+    return ("value", c_convert(v, t), t)
+
+
+FOLD_OPERANDS = [  # (value, (signed, width)) : values around the width boundaries, both signs
+    (0, (True, 32)), (1, (True, 32)), (-1, (True, 32)), (5, (True, 32)), (-7, (True, 32)), (0x7FFFFFFF, (True, 32)), (-0x80000000, (True, 32)),
+    (1, (False, 32)), (0xFFFFFFFF, (False, 32)), (0x80000000, (False, 32)), (6, (False, 32)),
+    (3, (True, 64)), (-7, (True, 64)), (0x7FFFFFFFFFFFFFFF, (True, 64)), (0x100000000, (True, 64)),
+    (2, (False, 64)), (0xFFFFFFFFFFFFFFFF, (False, 64)),
+    (-1, (False, 32)),  # what the unary folder leaves for -1U : value not yet reduced, type unsigned
+]
+FOLD_OPERANDS_QUICK = [FOLD_OPERANDS[i] for i in (1, 2, 4, 5, 7, 8, 12, 16)]
